@@ -635,6 +635,15 @@ def run(ctx) -> None:
                       f"`{tmpl}`: the step named '{key}' (classified {'mutating' if key in ('add_path', 'commit', 'tag', 'tag_light', 'push', 'push_tag') else 'fetch' if key == 'fetch' else 'read-only'}) "
                       f"executes `{' '.join(toks[:2])}`", loc="src/bumpver/vcs.py", witness={"vcs": vcs_name, "command": key})
 
+            if key in ("add_path", "commit", "tag", "tag_light", "push", "push_tag"):
+                # a mutating step does what was configured and no more: no flag that overwrites, widens or skips
+                widening = {"--force", "-f", "--force-with-lease", "--amend", "--all", "-a", "-A", "--delete", "-d", "--mirror", "--tags", "--no-verify", "--prune"}
+                bad_flags = [t_ for t_ in toks[2:] if t_ in widening]
+                ctx.check("R8", not bad_flags, f"{vcs_name} '{key}': no overwriting / widening flag",
+                          f"vcs.VCS_SUBCOMMANDS_BY_NAME['{vcs_name}']['{key}'] carries a flag that overwrites or widens the step ({' '.join(bad_flags)})",
+                          f"`{tmpl}`: the step no longer fails on (or is no longer limited to) what was configured - e.g. an existing tag is moved instead of refused, other tags / files are pushed or staged",
+                          loc="src/bumpver/vcs.py", witness={"vcs": vcs_name, "command": key, "flags": bad_flags})
+
     command_placeholders_rule(ctx, "R8")
 
     # ---------------------------------------------------------------- R7 (config side): tag / push without commit are refused when the config is read
